@@ -74,12 +74,16 @@ def gen_case(g):
         for n in names[3:]:
             del ws["files"][n]
     texts = pm.render_all(ws)
-    # spread module files over nested directories (INCLUDE fragments stay next to the program)
+    # spread module files over nested directories (INCLUDE fragments mostly stay next to the program)
     files = {}
     dirs = ["", "a/", "b/", "a/c/"]
     for n, t in texts.items():
         kind = ws["files"][n]["kind"]
         d = "" if kind in ("program", "include") or tiny else rng.choice(dirs)
+        if kind == "include" and not tiny and rng.random() < 0.25:
+            # the fragment lives in another source directory than the file that INCLUDEs it by its
+            # bare name (whether that resolves or not, it must not depend on how the index was built)
+            d = rng.choice(dirs[1:])
         files[d + n] = t
     names = sorted(files)
     nfiles = len(names)
